@@ -3,6 +3,8 @@ package props
 import (
 	"os"
 	"path/filepath"
+	"strconv"
+	"strings"
 	"testing"
 	"unicode/utf8"
 
@@ -20,7 +22,7 @@ func fuzzSeeds(f *testing.F) {
 	}
 	for _, s := range []string{"return 1 + 2 * 3;", "x = 65534; y = 65535; return x + y;", "if (1 == 1) { return √9.5; } else { return 2; }",
 		"function f(a) { local b; b = a; foreach i, v in 1..3 { b = b + v; } return b; } return f(2);", "switch (a) { case /x/i { return 1; } default { return 2; } }",
-		"a = {\"k\": [1, 2.5, \"s\"]}; return a.k[1] ? \"t\" : 'f';", "n = 0; while (n < 3) { n++; } return n % 2;", "return \"a\\\n b\" ~= /b$/m;", "return 1..3;", "++", "}{", "\"", "/", "//"} {
+		"a = {\"k\": [1, 2.5, \"s\"]}; return a.k[1] ? \"t\" : 'f';", "n = 0; while (n < 3) { n++; } return n % 2;", "return \"a\\\n b\" ~= /b$/m;", "return 1..3;", "function f(n) { if (n < 1) { return 0; } return 1 + f(n - 1); } return f(3);", "function a(n) { return n > 0 ? b(n - 1) : 0; } function b(n) { return a(n); } return a(2);", "++", "}{", "\"", "/", "//"} {
 		f.Add(s)
 	}
 }
@@ -59,7 +61,7 @@ func FuzzC03OptDiff(f *testing.F) {
 	fuzzSeeds(f)
 	col := fuzzCollector(f, "C03")
 	f.Fuzz(func(t *testing.T, script string) {
-		if len(script) > 1<<14 || containsAny(script, "√", "OPTIMIZE", "print", "now", "time", "getenv") {
+		if len(script) > 1<<14 || !utf8.ValidString(script) || containsAny(script, "√", "OPTIMIZE", "print", "now", "time", "getenv") {
 			return
 		}
 		c := &DiffCase{Prop: "C03", Kind: "diff", Script: script}
@@ -78,7 +80,7 @@ func FuzzC18Verify(f *testing.F) {
 	fuzzSeeds(f)
 	col := fuzzCollector(f, "C18")
 	f.Fuzz(func(t *testing.T, script string) {
-		if len(script) > 1<<14 {
+		if len(script) > 1<<14 || !utf8.ValidString(script) {
 			return
 		}
 		acc, nt, err := verifyScript(script, true)
@@ -105,6 +107,9 @@ func FuzzC14Lex(f *testing.F) {
 		}
 		if err := runTermination(src); err != nil {
 			lc := &LexCase{Prop: "C14", Kind: "term", Src: src, Msg: err.Error()}
+			if !utf8.ValidString(src) {
+				lc.Src, lc.Hex = hexOf(src), true
+			}
 			violation(t, "C14", lc, "%v", err)
 		}
 		if !utf8.ValidString(src) {
@@ -170,6 +175,51 @@ func regexpContextDiffers(toks []tok) bool {
 		}
 	}
 	return false
+}
+
+// TestFuzzCrasherToReplay turns an input on which a fuzzing worker DIED (no
+// oracle could speak) into the replay file of the property. Driver only.
+func TestFuzzCrasherToReplay(t *testing.T) {
+	file, target := os.Getenv("VERIF_CRASHER"), os.Getenv("VERIF_FUZZ_TARGET")
+	if file == "" {
+		t.Skip("driver only")
+	}
+	b, err := os.ReadFile(file)
+	if err != nil {
+		t.Fatalf("INFRA: %v", err)
+	}
+	input, found := "", false
+	for _, line := range strings.Split(string(b), "\n") {
+		if strings.HasPrefix(line, "string(") && strings.HasSuffix(line, ")") {
+			if s, err := strconv.Unquote(line[len("string(") : len(line)-1]); err == nil {
+				input, found = s, true
+			}
+		}
+	}
+	if !found {
+		t.Fatalf("INFRA: no string input in %s", file)
+	}
+	const why = "a fuzzing worker process died while executing this input"
+	switch target {
+	case "FuzzC08NoCrash":
+		c := &CrashCase{Prop: "C08", Kind: "fuzz", Script: input, Msg: why}
+		if !utf8.ValidString(input) {
+			c.Script, c.Hex = hexOf(input), true
+		}
+		violation(t, "C08", c, why)
+	case "FuzzC03OptDiff":
+		violation(t, "C03", &DiffCase{Prop: "C03", Kind: "diff", Script: input, Msg: why}, why)
+	case "FuzzC18Verify":
+		violation(t, "C18", &VerifyCase{Prop: "C18", Kind: "soup", Script: input, Msg: why}, why)
+	case "FuzzC14Lex":
+		lc := &LexCase{Prop: "C14", Kind: "term", Src: input, Msg: why}
+		if !utf8.ValidString(input) {
+			lc.Src, lc.Hex = hexOf(input), true
+		}
+		violation(t, "C14", lc, why)
+	default:
+		t.Fatalf("INFRA: unknown fuzz target %q", target)
+	}
 }
 
 func hexOf(s string) string {
